@@ -21,7 +21,7 @@ RULE = (
     "each run: seeded prior history (direct ops, earlier committed/aborted batches, reopen; prune on/off; lru-cache "
     "knob), one target squash_changes batch of k = 0..8 operations, and a seeded suffix of operations and lookups. "
     "The target batch is executed once with normal exit and then left in every other way, each as its own linear "
-    "trace: exception raised by the client after each position 0..k (Exception and BaseException), the p-th batch "
+    "trace: exception raised by the client after each position 0..k (Exception, BaseException, and the coroutine holding the block abandoned = GeneratorExit), the p-th batch "
     "operation itself raising MissingTrieNode uncaught (all underlying nodes withheld for that call), and for a "
     "non-pruning trie every commit write position n failed with the write applied and not applied. An evaluation is "
     "one complete execution of such a trace together with its twin (same trace without the batch). Non-trivial: the "
